@@ -143,7 +143,7 @@ class SynthDef(metaclass=MetaSynthDef):
         self._rewrite_in_progress = False
 
         # callable interface
-        # self._callable_args = None
+        self._callable_args = None
 
         self._build(func, rates or [], prepend or [])
 
@@ -221,7 +221,10 @@ class SynthDef(metaclass=MetaSynthDef):
             raise TypeError('func argument is not a function')
 
         sig = inspect.signature(func)
-        self._callable_args = list(sig.parameters.keys())
+        if self._callable_args is None:
+            # Only the graph function's non prepended parameters
+            # (SynthDef.wrap calls don't redefine them).
+            self._callable_args = list(sig.parameters.keys())[skip_args:]
         params = list(sig.parameters.values())
 
         if not params:
